@@ -30,7 +30,7 @@ def run(chk):
     chk.cov["distinct_nontrivial"] = len(ents)
     chk.cov["exhaustive"] = True
     chk.cov["disagreements_checked"] = nshapes
-    chk.cov["rule"] = ("34 entry points (likelihood, grad, conditioning and prediction at the training inputs with mean and variance incl. banded / diagonal predictive noise and an alternative predictive kernel, sampling, "
+    chk.cov["rule"] = ("37 entry points (likelihood, grad, conditioning and prediction at the training inputs with mean and variance incl. banded / diagonal predictive noise and an alternative predictive kernel, sampling, "
                        "kernel-vector products, predictive mean at new points) x three kernel expressions x diagonal / banded noise x with / without "
                        "the sortedness check; every outvar of every equation incl. scan / cond / jit bodies is one table row; the Coq theorem enumerates the whole table")
     chk.cov["samples"] = [dict(entry=k, **v) for k, v in list(ents.items())[:4]]
